@@ -31,4 +31,21 @@ theorem render_col (d : Dialect) (lb : Bool) (n : String) (ty : Ty) :
     render d lb (.col n ty) = G.atom ⟨n, .col n⟩ := by
   rfl
 
+theorem render_case (d : Dialect) (lb : Bool) (v : SaExpr) (ws : List SaExpr) (e : SaExpr) (ty : Ty) :
+    render d lb (.case_ v ws e ty) =
+      caseG (optG v (render d lb v)) (renderList d lb ws) (optG e (render d lb e)) := by
+  rfl
+
+theorem render_cast (d : Dialect) (lb : Bool) (e : SaExpr) (ty : Ty) :
+    render d lb (.cast e ty) = castG (castName d ty) (wouldGroup none e) (render d lb e) := by
+  rfl
+
+theorem render_func (d : Dialect) (lb : Bool) (n : String) (args : List SaExpr) (ty : Ty) :
+    render d lb (.func n args ty) = G.br (.fn n) (chain .comma ", " (renderList d lb args)) := by
+  rfl
+
+theorem render_subq (d : Dialect) (lb : Bool) (n : String) (ty : Ty) :
+    render d lb (.subq n ty) = G.atom ⟨"(SELECT " ++ n ++ ")", .col n⟩ := by
+  rfl
+
 end SaVerif.Expr
